@@ -1,6 +1,7 @@
 //! Harness binary for the AIGER parsers (flussab-aiger).
 mod c03;
 mod c06;
+mod c12;
 mod catalogue;
 mod flat;
 mod gen;
@@ -31,8 +32,8 @@ fn main() {
         let v: Value = mc_core::serde_json::from_str(&text).unwrap();
         let v = if v.get("replay").is_some() { v["replay"].clone() } else { v };
         let prop = v["property"].as_str().unwrap_or("").to_string();
-        if prop == "C06" || prop == "C03" {
-            let (violated, text) = if prop == "C06" { c06::replay(&v) } else { c03::replay(&v) };
+        if prop == "C06" || prop == "C03" || prop == "C12" {
+            let (violated, text) = if prop == "C06" { c06::replay(&v) } else if prop == "C12" { c12::replay(&v) } else { c03::replay(&v) };
             println!("{text}");
             println!("{}", if violated { "REPLAY: property violated" } else { "REPLAY: property holds" });
             std::process::exit(if violated { 1 } else { 0 });
@@ -158,6 +159,10 @@ fn main() {
         "C03" => {
             c03::run(tier, &mut report, &|format| gen::inputs(format, tier).all());
             c03::RULE.into()
+        }
+        "C12" => {
+            c12::run(tier, &mut report);
+            c12::RULE.into()
         }
         "C06" => {
             c06::run(tier, &mut report, &|format| gen::inputs(format, tier).all());
